@@ -1,7 +1,9 @@
 """Matrix-level algebraic layer: 2-D real arrays as terms of an uninterpreted sort Mat with the ring-like laws of matrix algebra.
 
-Soundness of using the laws without dimension typing: the laws below hold for conformable real matrices; every product/sum the code
-performs emits a conformability (shape) obligation, so the terms that occur are conformable.  Identity laws are guarded by rows/cols.
+Soundness of using the ring laws without dimension typing: a model is the set of pairs (dims, finitely supported infinite matrix) with the usual
+operations on the matrices, dims(mul(A,B)) = (rows A, cols B), dims(add/sub) = component-wise maximum, dims(T) swapped; all laws below hold in it.
+Identity laws are guarded by rows/cols, dimension facts of sums by conformability, Id/Zero by non-negative sizes.  Consistency of everything a path
+assumes is checked on every run by a vacuity canary at the end of every path (this caught two inconsistent unguarded dimension axioms).
 Extensionality (equal dimensions and equal entries => equal matrices) is a meta-rule applied through `mat_ext` (obligation, then equality).
 """
 import ast
@@ -32,12 +34,14 @@ def _axioms():
     ax = [
         # dimensions
         ForAll([A, B], And(rows(mul(A, B)) == rows(A), cols(mul(A, B)) == cols(B)), patterns=[mul(A, B)]),
-        ForAll([A, B], And(rows(add(A, B)) == rows(A), cols(add(A, B)) == cols(A)), patterns=[add(A, B)]),
-        ForAll([A, B], And(rows(sub(A, B)) == rows(A), cols(sub(A, B)) == cols(A)), patterns=[sub(A, B)]),
+        # sums/differences: dimensions only for conformable operands (with commutativity an unguarded version would force all matrices to one size;
+        # model: (dims, finitely supported matrix) pairs with dims(add) = component-wise maximum)
+        ForAll([A, B], Implies(And(rows(A) == rows(B), cols(A) == cols(B)), And(rows(add(A, B)) == rows(A), cols(add(A, B)) == cols(A))), patterns=[add(A, B)]),
+        ForAll([A, B], Implies(And(rows(A) == rows(B), cols(A) == cols(B)), And(rows(sub(A, B)) == rows(A), cols(sub(A, B)) == cols(A))), patterns=[sub(A, B)]),
         ForAll([A], And(rows(T(A)) == cols(A), cols(T(A)) == rows(A)), patterns=[T(A)]),
         ForAll([c, A], And(rows(smul(c, A)) == rows(A), cols(smul(c, A)) == cols(A)), patterns=[smul(c, A)]),
-        ForAll([n], And(rows(Id(n)) == n, cols(Id(n)) == n), patterns=[Id(n)]),
-        ForAll([n, m], And(rows(Zero(n, m)) == n, cols(Zero(n, m)) == m), patterns=[Zero(n, m)]),
+        ForAll([n], Implies(n >= 0, And(rows(Id(n)) == n, cols(Id(n)) == n)), patterns=[Id(n)]),
+        ForAll([n, m], Implies(And(n >= 0, m >= 0), And(rows(Zero(n, m)) == n, cols(Zero(n, m)) == m)), patterns=[Zero(n, m)]),
         ForAll([A], And(rows(A) >= 0, cols(A) >= 0), patterns=[rows(A)]),
         '$RING$',
         ForAll([A, B, C], mul(mul(A, B), C) == mul(A, mul(B, C)), patterns=[mul(mul(A, B), C)]),
@@ -139,7 +143,8 @@ def matmul_hook(I, a, b, what):
 
 def binop_hook(I, op, a, b, what):
     """elementwise + - and scalar * / on matrices stay matrices"""
-    am, bm = is_mat(I, a), is_mat(I, b)
+    is2 = lambda x: isinstance(x, ArrRef) and I.A(x).ndim == 2 and I.A(x).sort == RealS
+    am, bm = is2(a), is2(b)       # with the matrix layer installed every 2-D real array is handled as a matrix (entries stay available through `at`)
     if not (am or bm): return None
     if op in (ast.Add, ast.Sub) and isinstance(a, ArrRef) and isinstance(b, ArrRef):
         A, B = I.A(a), I.A(b)
@@ -157,7 +162,7 @@ def binop_hook(I, op, a, b, what):
 
 def a_T(I, a):
     A = I.A(a)
-    if is_mat(I, a): return mk(I, T(A.tag[1]), (A.shape[1], A.shape[0]))
+    if A.ndim == 2 and A.sort == RealS: return mk(I, T(mat_of(I, a)), (A.shape[1], A.shape[0]))
     return None
 
 def np_eye(I, n, *a, **k):
